@@ -27,6 +27,7 @@ func init() {
 			{ID: "C01.R8", Floor: 8, Doc: "writeHeader/readHeader/setLength/newFramer agree on header layout per version class", Run: c01r8},
 			{ID: "C01.R9", Floor: 1, Doc: "the framer handed to a caller owns its body: recv installs no connection-lifetime storage into it", Run: c01r9},
 			{ID: "C01.R10", Floor: 6, Doc: "an id in flight is not handed out again: the allocator claims and clears bits by compare-and-swap only (=C08.R2)", Run: c08r2},
+			{ID: "C01.R11", Floor: 1, Doc: "Conn.Read resumes a partially filled buffer where the failed attempt stopped, so frame boundaries are kept across a retried read", Run: c01r11},
 		},
 	})
 }
@@ -1059,4 +1060,59 @@ func c01r9(p *Program, r *Report) {
 		r.Check(fresh, fi.Decl, "(*Conn).recv builds a fresh framer per response and installs no connection-owned storage into it", "newFramer per frame; no framer slice field assigned from/to the Conn", "recv does not create a framer per response")
 	}
 	_ = n
+}
+
+// c01r11: Conn.Read retries temporary errors. io.ReadFull may have delivered part of the requested bytes before the
+// error, so the retry must fill the rest of the buffer (p[n:], with n advanced by every attempt's count). Reading
+// len(p) bytes again swallows the beginning of the next frame into this one: the following response is never looked
+// up under its stream id and this caller gets another request's bytes.
+func c01r11(p *Program, r *Report) {
+	fi := r.NeedFunc("(*Conn).Read")
+	if fi == nil {
+		return
+	}
+	info := fi.Pkg.TypesInfo
+	buf := paramObj(info, fi.Decl.Type, 0)
+	n := 0
+	for _, c := range callsIn(fi.Decl.Body) {
+		nm := calleeName(info, c)
+		if nm != "io.ReadFull" && nm != "io.ReadAtLeast" || len(c.Args) < 2 {
+			continue
+		}
+		loop := p.enclosing(c, fi.Decl, func(m ast.Node) bool {
+			switch m.(type) {
+			case *ast.ForStmt, *ast.RangeStmt:
+				return true
+			}
+			return false
+		})
+		if loop == nil {
+			continue // a single attempt
+		}
+		n++
+		name := "(*Conn).Read retries fill the rest of the buffer"
+		sl, ok := ast.Unparen(c.Args[1]).(*ast.SliceExpr)
+		if !ok || !isIdentOf(info, sl.X, buf) || sl.Low == nil || sl.High != nil {
+			r.Bad(c, name, "the retried read is given "+exprStr(c.Args[1])+" instead of the unfilled rest of the buffer (p[n:]): bytes already delivered by the failed attempt are read again from the stream, so this frame swallows the start of the next one and that response is lost")
+			continue
+		}
+		pos, isId := ast.Unparen(sl.Low).(*ast.Ident)
+		cnt := resultVarOf(p, c, 0)
+		adv := false
+		if isId && cnt != "" && cnt != "_" {
+			obj := info.Uses[pos]
+			ast.Inspect(loop, func(x ast.Node) bool {
+				if as, ok := x.(*ast.AssignStmt); ok && len(as.Lhs) == 1 && len(as.Rhs) == 1 && isIdentOf(info, as.Lhs[0], obj) {
+					if as.Tok == token.ADD_ASSIGN && exprStr(ast.Unparen(as.Rhs[0])) == cnt {
+						adv = true
+					}
+				}
+				return true
+			})
+		}
+		r.Check(adv, c, name, "p["+exprStr(sl.Low)+":], advanced by the count of each attempt", "the offset "+exprStr(sl.Low)+" into the buffer is not advanced by the number of bytes each attempt delivered: a retry overwrites or re-reads part of the frame")
+	}
+	if n == 0 {
+		r.OK(fi.Decl, "(*Conn).Read does not retry partial reads", "no ReadFull inside a loop")
+	}
 }
